@@ -16,7 +16,8 @@ From V.proofs Require Import Tracker_Proofs.
      403 an announced transaction that is not held and has no active request is not requested
      405 a connection that tracks an announced transaction whose window expired without a body does
          not request it at its next check
-     406 a connection still tracks a transaction confirmed in a processed block *)
+     406 a connection still tracks a transaction confirmed in a processed block
+     407 a tracker check asks for a transaction confirmed in a processed block (and not announced again since) *)
 Theorem C14_monitor_passes :
   forall (nconn : nat) (ops : list op),
     c14_valid nconn ops = true -> c14_monitor ops (run nconn ops) = None.
